@@ -4,7 +4,7 @@ import os
 
 import vlib
 
-PACKAGES = ["vlocal"]
+PACKAGES = ["vlocal", "vcodec", "vservice", "vbytestring", "vrt", "vconnect", "vtls", "vsrv"]
 
 
 def main():
